@@ -19,7 +19,6 @@ package proxy
 import (
 	"bytes"
 	"fmt"
-	"os"
 	"testing"
 
 	"go.minekube.com/gate/pkg/edition/java/proto/packet"
@@ -72,8 +71,6 @@ var (
 	c15BossBarType        proto.Packet = &bossbar.BossBar{}
 	c15BundleType         proto.Packet = &packet.BundleDelimiter{}
 )
-
-var c15DebugLeak = os.Getenv("C15_DEBUG_LEAK") != ""
 
 var c15Protocols = []int{47, 340, 754, 763, 764, 765, 766, 767, 769, 772, 774, 776}
 
